@@ -324,6 +324,11 @@ func runDetSched(o *Out, _ *rand.Rand, thorough bool) {
 		}
 		results := map[string][]string{}
 		for _, sch := range schedules {
+			// a fresh model per schedule: the model's own random source advances with every solve
+			bt, err, pan = buildCase(c)
+			if pan != nil || err != nil {
+				break
+			}
 			nextroute.VerifHook = scheduleHook(sch.delays, sch.nth)
 			sols, _, serr, span := solveAll(bt.model, nextroute.ParallelSolveOptions{Iterations: c.Solve.Iters, Duration: 30 * time.Second,
 				ParallelRuns: c.Solve.Runs, StartSolutions: c.Solve.Starts, RunDeterministically: true})
@@ -360,7 +365,7 @@ func runRepro(o *Out, _ *rand.Rand, thorough bool) {
 	o.Meta.Rule = "a case = generated instance (integer matrices → cost ties; multi-stop units with several allowed orders) solved " +
 		"repeatedly with the same options and one parallel run, with and without schedule perturbation; non-trivial = a case " +
 		"with a unit of several allowed orders; distinct by feature set"
-	ncases, reps := 20, 4
+	ncases, reps := 16, 3
 	if thorough {
 		ncases, reps = 150, 6
 	}
@@ -395,7 +400,7 @@ func runRepro(o *Out, _ *rand.Rand, thorough bool) {
 				break
 			}
 			if rep%2 == 1 {
-				nextroute.VerifHook = scheduleHook(map[string]time.Duration{"seq_perm": 200 * time.Microsecond, "worker_send": 2 * time.Millisecond}, nil)
+				nextroute.VerifHook = scheduleHook(map[string]time.Duration{"worker_send": 2 * time.Millisecond}, nil)
 			}
 			sols, _, serr, span := solveAll(bt.model, nextroute.ParallelSolveOptions{Iterations: c.Solve.Iters, Duration: 30 * time.Second,
 				ParallelRuns: 1, StartSolutions: c.Solve.Starts, RunDeterministically: c.Solve.Det})
